@@ -145,7 +145,13 @@ def h_beliefmdp(sk, numeric, bsupport, nseed, bmode='sym'):
                     Z = S.Sum(tau.values())
                     same = S.And([S.eq(nb.probs[i] * Z, tau[n]) for i, n in enumerate(sl)] + [S.lt(0, Z)])
                     cands.append((same, Z))
-                okb.append(S.eq(p, S.Sum(S.If(c, Z, 0) if S.symbolic() else (Z if c.concrete else 0) for c, Z in cands)))
+                want = S.Sum(S.If(c, Z, 0) if S.symbolic() else (Z if c.concrete else 0) for c, Z in cands)
+                # keys that are equal (up to float rounding in concrete replay) carry that mass together
+                got = 0
+                for nb2, p2 in items:
+                    samekey = S.And([S.eq(x, y) for x, y in zip(nb.probs, nb2.probs)])
+                    got = got + (S.If(samekey, p2, 0) if S.symbolic() else (p2 if samekey.concrete else 0))
+                okb.append(S.eq(got, want))
             S.check('BeliefMDP.next_state_dist:successor-probability-is-the-mass-of-the-observations-that-lead-to-it', S.And(okb))
             r = B.reward(bel, a, None)
             S.check('BeliefMDP.reward:belief-expected-immediate-reward', S.eq(
